@@ -263,7 +263,8 @@ class StaticDriver(HttpDriver):
         line = {**common, 'ev': 'ondemand', 'mode': 'odvod', 'rep': rid, 'base_url': path_of(rep['base']),
                 'init_range': rng(sl['init_range']), 'media_ranges': [rng(x) for x in sl['media_ranges']],
                 'seg_pos': [s.pos for s in sf.segments], 'seg_end': [s.pos + s.size for s in sf.segments],
-                'init_end': sf.init_end, 'flen': len(sf.data)}
+                'init_end': sf.init_end, 'flen': len(sf.data),
+                'init_start': next((pos for typ, pos, size in sf.layout if typ == 'ftyp'), 0)}
         fetched = []
         for a, b in [line['init_range']] + line['media_ranges']:
             rr = self.get(rep['base'], headers={'Range': f'bytes={a}-{b}'})
